@@ -274,3 +274,43 @@ Theorem C17_near_mod2_spec : forall e t : Z,
   near_mod2 e t = true <-> exists k : Z, (Z.abs (e - t - 2 * EUNIT * k) <= ATOL)%Z.
 Proof. exact near_mod2_spec. Qed.
 Print Assumptions C17_near_mod2_spec.
+
+(* ---- histories of calls on one sampler / service object (Vendor/History.v) ----
+   `expected` = at every call, the content of the submitted object AS IT IS THEN, resolved at the call's resolver.
+   The vendor samplers of the working tree keep nothing between calls (checked on real histories on every run:
+   the decoded request bodies of PasqalSampler / AQTSampler / cirq_ionq.Service histories against `history_ok`). *)
+From VF Require Import Vendor.History Vendor.HistoryProofs.
+
+Theorem C17_history_stateless_faithful : forall params evs h,
+  run (stateless params) tt h evs = expected params h evs.
+Proof. exact stateless_faithful. Qed.
+Print Assumptions C17_history_stateless_faithful.
+
+Theorem C17_history_ok_spec : forall params evs posted,
+  history_ok params evs posted = true <-> posted = expected params empty_heap evs.
+Proof. exact history_ok_spec. Qed.
+Print Assumptions C17_history_ok_spec.
+
+(* a sampler may remember the last request body if it remembers the VALUE it was made from ... *)
+Theorem C17_history_value_cache_faithful : forall params evs h,
+  run (value_cache params) None h evs = expected params h evs.
+Proof. exact value_cache_faithful. Qed.
+Print Assumptions C17_history_value_cache_faithful.
+
+(* ... but not the caller's mutable object (refuted; the witness history — submit, insert in place, submit again —
+   is among the fixed histories the check replays on every vendor sampler) *)
+Theorem C17_history_alias_cache_refuted : exists params evs,
+  run (alias_cache params) None empty_heap evs <> expected params empty_heap evs.
+Proof. exact alias_cache_refuted. Qed.
+Print Assumptions C17_history_alias_cache_refuted.
+
+(* in-place mutation is the only way to see the difference: fresh objects, frozen circuits, other resolvers and sweeps
+   cannot tell an aliasing sampler from a faithful one *)
+Theorem C17_history_alias_cache_faithful_without_mutation : forall params evs,
+  immutable_history [] evs -> run (alias_cache params) None empty_heap evs = expected params empty_heap evs.
+Proof. exact alias_cache_faithful_without_mutation. Qed.
+Print Assumptions C17_history_alias_cache_faithful_without_mutation.
+
+Example C17_history_immutable_inhabited :
+  immutable_history [] [ENew 0 [2; 5]; ESubmit 0 1; ENew 1 [2; 4; 5]; ESubmit 1 1; ESubmit 0 2; ESubmit 1 1].
+Proof. exact immutable_history_inhabited. Qed.
